@@ -97,3 +97,15 @@ package http
 //@   monitor bh.pendingLk: invariant [C01:requests-wait-only-while-the-next-round-is-known] len(bh.pending) == 0 || bh.latestRound != 0
 //@   requires h.log != nil && info != nil && common.validPeriod(info.Period) && common.validGenesis(info.GenesisTime)
 //@   call append#0: assert [C01:a-request-joins-the-waiters-only-for-the-round-delivered-next] held(bh.pendingLk) && bh.latestRound != 0 && (bh.latestRound + 1 == round || (bh.latestRound == 18446744073709551615 && round == 0))
+
+// ---- C19 (HTTP): the chain hash of a path is the decoding of exactly the path segment; a malformed one is refused -------
+//@ ghost urlParamOf(ref, string) string
+//@ extern github.com/go-chi/chi/v5.URLParam(r, key) (v)
+//@   trusted chi: the named segment of the matched route
+//@   modifies nothing
+//@   ensures v == urlParamOf(r, key)
+//@ func readChainHash(r) (h, err)
+//@   props C19
+//@   modifies nothing
+//@   ensures [C19:the-chain-hash-is-the-decoding-of-exactly-the-path-segment] err == nil && urlParamOf(r, chainHashParamKey) != "" ==> h == unhex(urlParamOf(r, chainHashParamKey))
+//@   ensures [C19:no-path-segment-means-no-hash] err == nil && urlParamOf(r, chainHashParamKey) == "" ==> len(h) == 0
